@@ -136,3 +136,61 @@ package banderwagon
 //@ modifies *res
 //@ loop 0 invariant 0 <= l && l <= 4 && (carry == 0 || carry == 1) && numWindowsInLimb * pp.windowSize == 64
 //@ loop 1 invariant 0 <= l && l < 4 && 0 <= w && w <= numWindowsInLimb && (carry == 0 || carry == 1) && numWindowsInLimb * pp.windowSize == 64
+
+// ---- group operations (C08): wrappers over gnark's projective formulas; gelP is the class of (X:Y:Z)
+
+//@ pkginv Identity.inner.X == fp_zero && Identity.inner.Y == fp_one && Identity.inner.Z == fp_one
+
+//@ func Element.Add
+//@ props C08
+//@ prelude field group
+//@ requires validP(p1.inner) && validP(p2.inner)
+//@ ensures result == p && validP(p.inner) && gelP(p.inner) == g_add(gelP(old(p1.inner)), gelP(old(p2.inner)))
+//@ modifies *p
+
+//@ func Element.Double
+//@ props C08
+//@ prelude field group
+//@ requires validP(p1.inner)
+//@ ensures result == p && validP(p.inner) && gelP(p.inner) == g_add(gelP(old(p1.inner)), gelP(old(p1.inner)))
+//@ modifies *p
+
+//@ func Element.Neg
+//@ props C08
+//@ prelude field group
+//@ requires validP(p1.inner)
+//@ ensures result == p && validP(p.inner) && gelP(p.inner) == g_neg(gelP(old(p1.inner)))
+//@ modifies *p
+
+//@ func Element.Sub
+//@ props C08
+//@ prelude field group
+//@ requires validP(p1.inner) && validP(p2.inner)
+//@ ensures result == p && validP(p.inner) && gelP(p.inner) == g_add(gelP(old(p1.inner)), g_neg(gelP(old(p2.inner))))
+//@ modifies *p
+
+//@ func Element.AddMixed
+//@ props C08
+//@ prelude field group
+//@ requires validP(p1.inner) && validP(p2.X, p2.Y, fp_one)
+//@ ensures result == p && validP(p.inner) && gelP(p.inner) == g_add(gelP(old(p1.inner)), gelP(p2.X, p2.Y, fp_one))
+//@ modifies *p
+
+//@ func Element.Set
+//@ props C08
+//@ prelude field group
+//@ ensures result == p && *p == old(*p1)
+//@ modifies *p
+
+//@ func Element.SetIdentity
+//@ props C08
+//@ prelude field group
+//@ ensures result == p && p.inner.X == fp_zero && p.inner.Y == fp_one && p.inner.Z == fp_one
+//@ modifies *p
+
+//@ func Element.ScalarMul
+//@ props C08
+//@ prelude field group
+//@ requires validP(p1.inner)
+//@ ensures result == p && validP(p.inner) && gelP(p.inner) == g_smul(fr_to_int(*scalarMont), gelP(old(p1.inner)))
+//@ modifies *p
